@@ -22,7 +22,7 @@ import (
 // printer options
 
 type l4Opts struct {
-	Indent                                                        uint
+	Indent                                                             uint
 	BinNext, SwitchCase, SpaceRedir, KeepPad, FuncNext, Minify, Single bool
 }
 
@@ -545,11 +545,78 @@ func l4Program(r *Rand, lang syntax.LangVariant) (src string, kind string) {
 	g.Depth = 1 + r.Intn(4)
 	src = g.Program(1 + r.Intn(4))
 	kind = "gen"
+	if r.Chance(12) {
+		// shapes of recorded printer/parser findings and their neighbours, spliced into the program
+		// so that every recorded class (and a later repair of it) stays within reach of the search
+		src = l4Splice(r, lang, src)
+		kind = "gen+shape"
+	}
 	if r.Chance(40) {
 		src = layoutMutate(r, src)
 		kind = "gen+layout"
 	}
 	return
+}
+
+// l4Splice adds one statement built from a table of layout-sensitive shapes to src: before it,
+// after it, or wrapped in a block / subshell / if so that it is printed at a deeper indentation.
+func l4Splice(r *Rand, lang syntax.LangVariant, src string) string {
+	w := func() string { return []string{"a", "b", "x", "foo", "1", "a1"}[r.Intn(6)] }
+	sign := func() string { return []string{"-", "+", "--", "++", "!", "~"}[r.Intn(6)] }
+	ctl := func() string { return []string{"\v", "\f", "\t", " "}[r.Intn(4)] }
+	shapes := []func() string{
+		func() string { return "cat <<-EOF\n\t" + w() + ctl() + w() + "\n\tEOF" },
+		func() string { return "cat <<EOF\n" + w() + ctl() + w() + "\nEOF" },
+		func() string { return "echo ${" + w() + ":-\\\n" + w() + "}" },
+		func() string { return "echo ${" + w() + "/x/\\\n" + w() + "}" },
+		func() string { return "echo \"${" + w() + ":+\\\n" + w() + "}\"" },
+		func() string { return "echo ${a: " + sign() + w() + "}" },
+		func() string { return "echo ${a:1: " + sign() + w() + "}" },
+		func() string { return "echo ${a:" + w() + sign() + " " + sign() + "1}" },
+		func() string { return "echo $((" + sign() + " " + sign() + w() + "))" },
+		func() string { return "echo $((" + w() + " " + sign() + " " + sign() + w() + "))" },
+		func() string { return "let a=1+\\\n2" },
+		func() string { return "let " + w() + "=" + sign() + "\\\n" + w() + " b=2" },
+		func() string { return "cat <<EOF >$(a\nb)\nbody\nEOF" },
+		func() string { return "cat <<EOF | b $(\n)\nbody\nEOF" },
+		func() string { return "cat <<'EOF'; echo \"a\nb\"\nbody\nEOF" },
+		func() string { return "cat <" + w() + "<(b)" },
+		func() string { return "echo $(a)<(b) " + w() + ">(c)" },
+		func() string { return "echo $`cmd` " + w() + "$`c`" },
+		func() string { return "echo " + w() + "\\\r \n" + w() },
+		func() string { return "((" + w() + "\n)) && " + w() },
+		func() string { return "[[ " + w() + "\n]] && " + w() },
+	}
+	if lang == syntax.LangZsh {
+		shapes = append(shapes,
+			func() string { return "echo ${x:$" + w() + "} ${x:1:$" + w() + "}" },
+			func() string { return "( () { " + w() + "; } )" },
+			func() string { return "echo $( () { " + w() + "; } )" },
+			func() string { return "( () " + w() + " )" },
+			func() string { return w() + " > !" + w() + " >> !1" },
+			func() string { return w() + " > (0)" },
+			func() string { return "echo 1 $?[ab] \"$#[1]\"" },
+			func() string { return "$ <<E (f)\nE" },
+			func() string { return "echo `\"$#\\$\"`" },
+		)
+	}
+	if lang == syntax.LangMirBSDKorn {
+		shapes = append(shapes, func() string { return "case x { a) b ;; }" })
+	}
+	st := shapes[r.Intn(len(shapes))]()
+	switch r.Intn(6) {
+	case 0:
+		return st + "\n" + src
+	case 1:
+		return "{\n" + st + "\n}\n" + src
+	case 2:
+		return "(\n" + st + "\n)\n" + src
+	case 3:
+		return "if " + w() + "; then\n" + st + "\nfi\n" + src
+	case 4:
+		return strings.TrimRight(src, "\n") + "\n" + st + "\n"
+	}
+	return strings.TrimRight(src, "\n") + "\nf() {\n" + st + "\n}\n"
 }
 
 // ---------------------------------------------------------------------------------------------
@@ -804,7 +871,6 @@ func looksLikeAssign(w *syntax.Word) bool {
 	return rest[0] == '=' || strings.HasPrefix(rest, "+=") || rest[0] == '['
 }
 
-
 // arithFirst returns the first byte the printer writes for an arithmetic expression (0 = unknown).
 func arithFirst(x syntax.ArithmExpr) byte {
 	switch x := x.(type) {
@@ -957,14 +1023,12 @@ func (st *l4Stats) export(c *Ctx) {
 	}
 }
 
-
 func clip(s string, n int) string {
 	if len(s) > n {
 		return s[:n] + "…"
 	}
 	return s
 }
-
 
 // ---------------------------------------------------------------------------------------------
 // Recorded printer defects (known-findings.jsonl, property C01): exclusion predicates on
@@ -1108,7 +1172,17 @@ func c01Excluded(tc l4Case, f *syntax.File, sh *shape) string {
 		}
 		return sh.any(func(m syntax.Node) bool {
 			if nodeWithin(owner, m) {
-				return false // the printer moves the here-document behind the words of its own command
+				// the printer moves the here-document behind the words of its own command, but a
+				// redirection that follows the operator stays behind it (`cat <<EOF >$(a` NEWLINE `b)`)
+				later := false
+				for _, x := range owner.Redirs {
+					if x != r && x.Word != nil && x.OpPos.After(r.OpPos) && nodeWithin(x.Word, m) {
+						later = true
+					}
+				}
+				if !later {
+					return false
+				}
 			}
 			var left, right syntax.Pos
 			var nst int
@@ -1248,6 +1322,126 @@ func c01Excluded(tc l4Case, f *syntax.File, sh *shape) string {
 	}) {
 		return "C01-zsh-special-param-subscript"
 	}
+	// C01-dashhdoc-vt-ff: with tab indentation (Indent 0, no Minify) the body of a <<- here-document
+	// goes through extraIndenter, which escapes tabs for text/tabwriter but not vertical tabs and
+	// form feeds; the tabwriter turns them into a blank / a line break.
+	if o.Indent == 0 && !o.Minify && strings.ContainsAny(tc.Src, "\v\f") && sh.any(func(n syntax.Node) bool {
+		r, ok := n.(*syntax.Redirect)
+		if !ok || r.Op != syntax.DashHdoc || r.Hdoc == nil || len(r.Hdoc.Parts) == 0 {
+			return false
+		}
+		a, b := int(r.Hdoc.Pos().Offset()), int(r.Hdoc.End().Offset())
+		return a >= 0 && b <= len(tc.Src) && a <= b && strings.ContainsAny(tc.Src[a:b], "\v\f")
+	}) {
+		return "C01-dashhdoc-vt-ff"
+	}
+	// C01-paramexp-word-escaped-newline: a word inside ${a:-…} / ${a/x/…} that starts on a later
+	// line than the operator (escaped newline in the source) is printed after backslash-newline
+	// plus indentation (and a blank), and inside ${ } those bytes belong to the word.
+	if !o.Single && sh.any(func(n syntax.Node) bool {
+		pe, ok := n.(*syntax.ParamExp)
+		if !ok || pe.Param == nil {
+			return false
+		}
+		line := pe.Param.End().Line()
+		later := func(w *syntax.Word) bool { return w != nil && len(w.Parts) > 0 && w.Pos().Line() > line }
+		if pe.Exp != nil && later(pe.Exp.Word) {
+			return true
+		}
+		if pe.Repl != nil && (later(pe.Repl.Orig) || later(pe.Repl.With)) {
+			return true
+		}
+		return false
+	}) {
+		return "C01-paramexp-word-escaped-newline"
+	}
+	// C01-slice-offset-incdec: the offset of ${a: ++x} / ${a: --x} is printed without the blank:
+	// ${a:++x} / ${a:--x} are ${a:+word} / ${a:-word} (the printer guards + and - only).
+	if sh.any(func(n syntax.Node) bool {
+		pe, ok := n.(*syntax.ParamExp)
+		if !ok || pe.Slice == nil || pe.Slice.Offset == nil {
+			return false
+		}
+		x := pe.Slice.Offset
+		for {
+			switch y := x.(type) {
+			case *syntax.BinaryArithm:
+				x = y.X
+				continue
+			case *syntax.UnaryArithm:
+				if y.Post {
+					x = y.X
+					continue
+				}
+				return y.Op == syntax.Inc || y.Op == syntax.Dec
+			}
+			return false
+		}
+	}) {
+		return "C01-slice-offset-incdec"
+	}
+	// C01-let-escaped-newline: an escaped newline inside one expression of `let` is printed as
+	// blank + backslash + newline, and the blank ends the expression (`let a=1+ \`).
+	if !o.Single && sh.any(func(n syntax.Node) bool {
+		lc, ok := n.(*syntax.LetClause)
+		if !ok {
+			return false
+		}
+		for _, e := range lc.Exprs {
+			line := e.Pos().Line()
+			if anyBelow(e, func(m syntax.Node) bool { return m.Pos().IsValid() && m.Pos().Line() > line }) {
+				return true
+			}
+		}
+		return false
+	}) {
+		return "C01-let-escaped-newline"
+	}
+	// C01-zsh-simplify-slice-modifier (root cause in Simplify, C04's ground): Simplify turns the
+	// slice offset `$a` of zsh ${x:$a} into the bare name `a`, and ${x:a} is the modifier `:a`.
+	if tc.Lang == syntax.LangZsh && tc.Simplify && sh.any(func(n syntax.Node) bool {
+		pe, ok := n.(*syntax.ParamExp)
+		if !ok || pe.Slice == nil {
+			return false
+		}
+		bare := func(x syntax.ArithmExpr) bool {
+			w, ok := x.(*syntax.Word)
+			if !ok || len(w.Parts) != 1 {
+				return false
+			}
+			l, ok := w.Parts[0].(*syntax.Lit)
+			return ok && syntax.ValidName(l.Value)
+		}
+		return bare(pe.Slice.Offset)
+	}) {
+		return "C01-zsh-simplify-slice-modifier"
+	}
+	// C01-zsh-subshell-anon-func: a zsh anonymous function `() { … }` first in a subshell or command
+	// substitution is glued to the parenthesis: `(() {` / `$(() {` start an arithmetic command.
+	if tc.Lang == syntax.LangZsh && sh.any(func(n syntax.Node) bool {
+		var stmts []*syntax.Stmt
+		switch x := n.(type) {
+		case *syntax.Subshell:
+			stmts = x.Stmts
+		case *syntax.CmdSubst:
+			stmts = x.Stmts
+		}
+		if len(stmts) == 0 {
+			return false
+		}
+		cmd := stmts[0].Cmd
+		for {
+			b, ok := cmd.(*syntax.BinaryCmd)
+			if !ok {
+				break
+			}
+			cmd = b.X.Cmd
+		}
+		fd, ok := cmd.(*syntax.FuncDecl)
+		return ok && !fd.RsrvWord && fd.Name == nil && len(fd.Names) == 0 && !stmts[0].Negated
+	}) {
+		return "C01-zsh-subshell-anon-func"
+	}
 	// C01-escaped-cr-before-newline: a word ending in backslash + carriage return printed at the
 	// end of a line makes `\` CR LF, which the lexer reads as an escaped newline.
 	if strings.Contains(tc.Src, "\\\r") && sh.any(func(n syntax.Node) bool {
@@ -1316,7 +1510,6 @@ func c01Excluded(tc l4Case, f *syntax.File, sh *shape) string {
 	return ""
 }
 
-
 // nodeWithin reports whether m is root or a descendant of root.
 func nodeWithin(root, m syntax.Node) bool {
 	found := false
@@ -1361,4 +1554,3 @@ func subnodesOf(f *syntax.File) []subnode {
 	})
 	return out
 }
-
